@@ -17,11 +17,8 @@ ASSUMPTIONS = ["lattice inputs and integer cone matrices are exactly representab
 def cone_obj(W, as_int=False):
     """as the constructor does (self.W = np.array(W)), without the alpha SOCPs; integer matrices keep
     their integer dtype when as_int (the class docstring itself uses an integer W)"""
-    from vopy.ordering_cone import OrderingCone
-    oc = OrderingCone.__new__(OrderingCone)
-    oc.W = np.array(W) if as_int else np.array(W, dtype=float)
-    oc.dim = oc.W.shape[1]; oc.alpha = None
-    return oc
+    import impl
+    return impl.make_cone(np.array(W) if as_int else np.array(W, dtype=float))
 
 
 def gen_cases(ctx):
